@@ -118,6 +118,13 @@ func genC07(c *RunCtx) []*Batch {
 			}
 		} else if r.Intn(3) == 0 {
 			t = deepTree(r)
+		} else if r.Intn(3) == 0 {
+			// logic operators nested directly in one another (short-circuit jumps chained through several levels):
+			// evaluated again and again with other bindings, the program must stay what it was
+			t = logicNest(r, 3)
+			if t.Kind != "op" {
+				t = gop("c_id", t)
+			}
 		} else {
 			gc := randGenCfg(r)
 			gc.Wide = 0
@@ -271,6 +278,20 @@ func genC08(c *RunCtx) []*Batch {
 		mk := func() *eval.Config {
 			rc := &RunCfg{Opts: optSubset(r.Intn(16), r.Bool()), Costs: randCosts(r), Consts: map[string]interface{}{"K1": int64(3), "KL": []int64{1, 2, 3}, "KS": "s"},
 				VarNames: append(append([]string{}, boolVars...), intVars...)}
+			// list constants past the 100-element switch of in/overlap, unsorted: operators run on them at compile time
+			// (constant folding) and at evaluation time; they are the caller's slices
+			kbig, ksm := make([]int64, 110), make([]int64, 30)
+			for i := range kbig {
+				kbig[i] = int64((i*37)%211) - 100
+			}
+			for i := range ksm {
+				ksm[i] = int64((i*53)%97) + 300
+			}
+			kstr := make([]string, 105)
+			for i := range kstr {
+				kstr[i] = fmt.Sprintf("w%d", (i*29)%131)
+			}
+			rc.Consts["KBIG"], rc.Consts["KSM"], rc.Consts["KSTR"], rc.Consts["KS2"] = kbig, ksm, kstr, []string{"zz", "b", "a"}
 			cc := rc.Build().Conf
 			// a stateless list with spare capacity
 			sl := make([]string, 0, 8)
@@ -324,7 +345,10 @@ func genC08(c *RunCtx) []*Batch {
 				gc := randGenCfg(r)
 				gc.Wide, gc.FailVars = 0, false
 				t := randTree(r, gc)
-				if r.Bool() {
+				if r.Intn(6) == 0 {
+					t = []*GT{gop("overlap", gvar2c("KSM"), gvar2c("KBIG")), gop("overlap", gvar2c("KBIG"), gvar2c("KSM")), gop("overlap", gvar2c("KS2"), gvar2c("KSTR")),
+						gop("or", gop("in", gvar("i0"), gvar2c("KSM")), gop("overlap", gvar2c("KSM"), gvar2c("KBIG")))}[r.Intn(4)]
+				} else if r.Bool() {
 					// constant-rich: what is folded at compile time depends on THIS config's stateless declarations only,
 					// whatever other configurations in the process declare
 					t = constRichTree(r)
